@@ -45,24 +45,13 @@ Definition ndt_prov (a : DateTime.ndt) : R val :=
   let* wd := d_weekday d in
   Val (VTup [VInt q; val_of_bool (fst yce); VInt (snd yce); VInt dim; VInt (d_year d); VInt m; VInt m0;
              VInt dd; VInt d0; VInt (d_ordinal d); VInt o0; VInt wd]).
-(** impl PartialEq for NaiveWeek (as repaired, fixes/C08-naiveweek-eq-panic.diff):
-      self.checked_first_day() == other.checked_first_day() && self.checked_last_day() == other.checked_last_day()
-    ([ne] is the provided [!eq]); impl Hash: both options are fed to the hasher — the observable is
-    equality of the hashed keys *)
-Definition opt_eqb (a b : option Z) : bool :=
-  match a, b with Some x, Some y => x =? y | None, None => true | _, _ => false end.
-Definition week_eqb (w1 w2 : nweek) : R bool :=
-  let* f1 := week_checked_first_day w1 in let* f2 := week_checked_first_day w2 in
-  if opt_eqb f1 f2 then
-    let* l1 := week_checked_last_day w1 in let* l2 := week_checked_last_day w2 in Val (opt_eqb l1 l2)
-  else Val false.
-Definition week_hash_key_eqb (w1 w2 : nweek) : R bool :=
-  let* f1 := week_checked_first_day w1 in let* l1 := week_checked_last_day w1 in
-  let* f2 := week_checked_first_day w2 in let* l2 := week_checked_last_day w2 in
-  Val (opt_eqb f1 f2 && opt_eqb l1 l2).
+(** impl PartialEq for NaiveWeek: [self.first_day() == other.first_day()] ([ne] is the provided [!eq]);
+    impl Hash: [self.first_day().hash(state)] — the observable is equality of the hashed keys *)
 Definition week_eq_obs (w1 w2 : nweek) : R val :=
-  let* e := week_eqb w1 w2 in let* e' := week_eqb w1 w2 in let* h := week_hash_key_eqb w1 w2 in
-  Val (VTup [val_of_bool e; val_of_bool (negb e'); val_of_bool h]).
+  let* a := week_first_day w1 in let* b := week_first_day w2 in
+  let* a' := week_first_day w1 in let* b' := week_first_day w2 in
+  let* ha := week_first_day w1 in let* hb := week_first_day w2 in
+  Val (VTup [val_of_bool (a =? b); val_of_bool (negb (a' =? b')); val_of_bool (ha =? hb)]).
 
 (** argument decoders *)
 Definition arg_u8 (v : val) : option Z := match v with VInt z => if in_u8 z then Some z else None | _ => None end.
